@@ -139,6 +139,13 @@ fn random_call(rng: &mut Rng) -> Call {
         cfg.use_fixed = rng.chance(50);
         cfg.lpc_order = *rng.pick(&[2usize, 8, 12, 24]);
     }
+    if rng.chance(20) {
+        // only the LPC candidate and verbatim remain: whatever the thread-local LPC buffers hold decides the frame
+        cfg.use_lpc = true;
+        cfg.use_fixed = false;
+        cfg.use_constant = false;
+        cfg.lpc_order = *rng.pick(&[2usize, 8, 12, 24]);
+    }
     // experimental estimators (direct MSE / IRLS-MAE) keep per-thread state of their own; only in the
     // dedicated experimental run (the generator must not depend on the build in cross-build comparisons)
     if cfg!(feature = "experimental") && std::env::var("FVH_EXPERIMENTAL").is_ok() && rng.chance(60) {
@@ -226,6 +233,13 @@ pub fn generate(seed: u64, cases: usize, out: &mut dyn FnMut(String)) {
                     let shorter = if rng.chance(50) { pcm.len() - d } else { pcm.len() + d };
                     let mut r2 = Rng::new(rng.next());
                     out.push(Call::Encode(cfg.clone(), gen::pcm(&mut r2, pcm.family, pcm.channels, pcm.bps, pcm.rate, shorter), mode.clone()));
+                    if rng.chance(45) {
+                        // DEGENERATE content of the same shape right after real content: digital silence, DC, one
+                        // impulse. Fast paths that skip a write leave the previous call's scratch contents in place
+                        let fam2 = *rng.pick(&["silence", "silence", "dc", "impulses"]);
+                        let mut r3 = Rng::new(rng.next());
+                        out.push(Call::Encode(cfg.clone(), gen::pcm(&mut r3, fam2, pcm.channels, pcm.bps, pcm.rate, pcm.len()), mode.clone()));
+                    }
                     if !cfg.window_rect && rng.chance(50) {
                         let mut c2 = cfg.clone();
                         c2.alpha_bits = if c2.alpha_bits > 0 { c2.alpha_bits - 1 } else { 1 };
@@ -235,7 +249,11 @@ pub fn generate(seed: u64, cases: usize, out: &mut dyn FnMut(String)) {
                 }
                 Call::Subframe(cfg, sig, bps) if rng.chance(45) && sig.len() > 80 => {
                     let d = 1 + rng.below(15) as usize;
-                    vec![Call::Subframe(cfg.clone(), sig[..sig.len() - d].to_vec(), *bps)]
+                    let mut v = vec![Call::Subframe(cfg.clone(), sig[..sig.len() - d].to_vec(), *bps)];
+                    if rng.chance(50) {
+                        v.push(Call::Subframe(cfg.clone(), vec![0i32; sig.len()], *bps));
+                    }
+                    v
                 }
                 _ => vec![],
             };
